@@ -7,6 +7,7 @@ import (
 	"os"
 	"os/exec"
 	"path/filepath"
+	"runtime/pprof"
 	"sort"
 	"strings"
 	"time"
@@ -328,7 +329,13 @@ func cmdRun(args []string) {
 	unwind := fs.Int("unwind", 0, "loop unwinding bound")
 	repo := fs.String("repo", "/repo", "repository under test")
 	deadline := fs.Int("deadline", 0, "executor deadline in seconds (single job)")
+	cpuprof := fs.String("cpuprofile", "", "write a CPU profile")
 	fs.Parse(args)
+	if *cpuprof != "" {
+		f, _ := os.Create(*cpuprof)
+		pprof.StartCPUProfile(f)
+		defer pprof.StopCPUProfile()
+	}
 	repoDir = *repo
 	var jobs []Job
 	if *jobsFile != "" {
